@@ -84,6 +84,7 @@ def orders(l):
     if l:
         o.append(0)
     o += [k for k in range(2, 9) if l and l % k == 0]
+    o += [-k for k in range(2, 9) if l and l % k == 0]      # groups of k bytes read msb first (Bits.load docstring)
     return o
 
 
@@ -114,25 +115,22 @@ def run_long(ctx, pt):
     from crysp.bits import Bits, pack, unpack
     l, d = pt
     s = {'ramp': ramp(l, 37, 5), 'exp': expander(l, 1), 'asc': bytes(range(1, l + 1))}[d]
-    # the documented negative group orders are used first (unjudged: the property lists -1,+1,0,k only): what the judged
-    # orders mean must not depend on which convention was used first in the process
-    for o in orders(l):
-        if o >= 2 or o == 0:
-            ctx.attempt(lambda: Bits(s, bitorder=-(o or l)))
+    def oname(o):
+        return o if abs(o) <= 1 else ('k' if o > 0 else '-k')
     for o in orders(l):
         n, x = model_load(s, o)
         r = ctx.attempt(lambda: val(Bits(s, bitorder=o)))
-        ctx.eq('C07/from-bytes/bitorder=%s' % (o if abs(o) <= 1 else 'k'), r, ('ok', mval(n, x)))
+        ctx.eq('C07/from-bytes/bitorder=%s' % oname(o), r, ('ok', mval(n, x)))
         for sz in sorted({0, 1, 7, 8, 9, 4 * l, 8 * l - 17, 8 * l - 9, 8 * l - 8, 8 * l - 3, 8 * l, 8 * l + 5}):
             if sz < 0:
                 continue
             r = ctx.attempt(lambda: val(Bits(s, size=sz, bitorder=o)))
-            ctx.eq('C07/from-bytes-size/bitorder=%s' % (o if abs(o) <= 1 else 'k'), r, ('ok', mval(sz, x & ((1 << sz) - 1))))
+            ctx.eq('C07/from-bytes-size/bitorder=%s' % oname(o), r, ('ok', mval(sz, x & ((1 << sz) - 1))))
     # and the judged orders once more in reverse sequence
     for o in reversed(orders(l)):
         n, x = model_load(s, o)
         r = ctx.attempt(lambda: val(Bits(s, bitorder=o)))
-        ctx.eq('C07/from-bytes/order-of-use/bitorder=%s' % (o if abs(o) <= 1 else 'k'), r, ('ok', mval(n, x)))
+        ctx.eq('C07/from-bytes/order-of-use/bitorder=%s' % oname(o), r, ('ok', mval(n, x)))
     ctx.eq('C07/unpack-le', ctx.attempt(unpack, s), ('ok', (int.from_bytes(s, 'little'), 8 * l)))
     ctx.eq('C07/unpack-be', ctx.attempt(unpack, s, True), ('ok', (int.from_bytes(s, 'big'), 8 * l)))
     x = int.from_bytes(s, 'little')
@@ -145,7 +143,7 @@ def run_long(ctx, pt):
 
 
 def pts_verylong(tier):
-    return [(4098, 3), (4098, 6), (4100, 5), (4104, 9), (8190, 7), (8192, 2), (4097, 1), (4097, -1), (4110, 10), (12288, 12), (4098, 0)]
+    return [(4098, 3), (4098, 6), (4100, 5), (4104, 9), (8190, 7), (8192, 2), (4097, 1), (4097, -1), (4110, 10), (12288, 12), (4098, 0), (4098, -3), (8190, -6)]
 
 
 def run_verylong(ctx, pt):
@@ -199,14 +197,14 @@ def subchecks():
         Sub('small-widths', pts_small, run_small, engine='D',
             bound='every (n,x) with n<=13 (thorough n<=18): all constructors, all conversions out, all round trips'),
         Sub('short-bytes', pts_bytes2, run_bytes2, engine='D',
-            bound='every byte string of length 0..2 under bitorder in {-1,+1,0,2}, with and without size'),
+            bound='every byte string of length 0..2 under bitorder in {-1,+1,0,2,-2}, with and without size'),
         Sub('byte-strings', pts_long, run_long, engine='P',
-            bound='every byte length 1..40 x 3 patterns x bitorder in {-1,+1,0} U {k in 2..8 : k | len}, each with 12 explicit sizes, and again after negative group orders were used; generalized unpack both endiannesses'),
-        Sub('very-long-byte-strings', pts_verylong, run_verylong, engine='P', exhaustive=False, bound='11 byte strings of 4097..12288 bytes with group sizes 1, 2, 3, 5, 6, 7, 9, 10, 12 and the one-integer order'),
+            bound='every byte length 1..40 x 3 patterns x bitorder in {-1,+1,0} U {k, -k : k in 2..8, k | len}, each with 12 explicit sizes, and the orders again in reverse sequence; generalized unpack both endiannesses'),
+        Sub('very-long-byte-strings', pts_verylong, run_verylong, engine='P', exhaustive=False, bound='13 byte strings of 4097..12288 bytes with group sizes 1, 2, 3, 5, 6, 7, 9, 10, 12, -3, -6 and the one-integer order'),
         Sub('wide', pts_wide, run_wide, engine='P', exhaustive=False,
             bound='widths 17..130, 255..257, 1023..1025, 2047..2049 (quick: subset) x {0,1,2^k-1,2^k,2^k+1,2^n-1,alternating}; sampled per the property statement'),
     ]
 
 
-ASSUMPTIONS = ['negative bitorder magnitudes above 1 are not exercised (the property lists -1,+1,0,k)',
+ASSUMPTIONS = ['negative bitorder magnitudes above 1 are judged by the Bits.load docstring (groups of k bytes, each byte read msb first); the property statement names -1, +1, 0 and k and refers to the documentation for the rest',
                'bitorder=0 on the empty string is not exercised']
